@@ -100,7 +100,7 @@ Definition x_rev (e : env) (cl : cluster) (r : resource) (revs : list rev) : boo
     Bool.eqb (model_direct e (rv_kind v) (rv_ns v) (rv_name v) r) (rv_direct v) &&
     same_set (model_via cl (rv_kind v) (rv_ns v) (rv_name v)) (rv_via v) &&
     match rv_kind v with
-    | KEndpoints => Bool.eqb (requires_endpoints_update (rv_name v) r) (rv_req v)
+    | KEndpoints => Bool.eqb (requires_endpoints_update e (rv_name v) r) (rv_req v)
     | _ => true
     end) revs.
 
